@@ -338,7 +338,42 @@ def _effect_order(ctx, rep) -> None:
     elif isinstance(factor, ast.Name) and factor.id == lr_formal:
         rep.ob("C01.2", "scale:-lr", False, impl.loc(scale[0]), "direction is scaled by +lr: parameters would move along the gradient direction")
     else:
-        raise AnalysisError(f"C01.2: unrecognised scaling factor `{ast.unparse(factor) if factor is not None else None}` for the direction list")
+        # any other spelling (`lr.neg()`, `torch.neg(lr)`, `-1 * lr`, `lr * -1.0`, `lr.mul(-1)`, `0 - lr`): evaluate it at two values of lr
+        from ..guards import _MISSING, Interp, Raised, Unsupported
+
+        class Num(float):
+            neg = negative = lambda self: Num(-float(self))
+            mul = multiply = lambda self, o: Num(float(self) * float(o))
+            sub = lambda self, o: Num(float(self) - float(o))
+            add = lambda self, o: Num(float(self) + float(o))
+            div = lambda self, o: Num(float(self) / float(o))
+            __neg__ = lambda self: Num(-float(self))
+            __mul__ = __rmul__ = lambda self, o: Num(float(self) * float(o))
+            __sub__ = lambda self, o: Num(float(self) - float(o))
+            __rsub__ = lambda self, o: Num(float(o) - float(self))
+
+        def hook(it, c):
+            f = c.func
+            if isinstance(f, ast.Attribute):
+                d = repo.dotted_of(impl.module, f)
+                if d in ("torch.neg", "torch.negative") and len(c.args) == 1:
+                    return Num(-float(it.ev(c.args[0])))
+                if d in ("torch.mul", "torch.multiply") and len(c.args) == 2:
+                    return Num(float(it.ev(c.args[0])) * float(it.ev(c.args[1])))
+                if f.attr in ("neg", "negative", "mul", "multiply", "sub", "add", "div"):
+                    b = it.ev(f.value)
+                    if isinstance(b, Num):
+                        return getattr(b, f.attr)(*[it.ev(a) for a in c.args])
+            return _MISSING
+
+        got = []
+        try:
+            for v in (0.25, 3.0):
+                got.append(float(Interp({lr_formal: Num(v)}, call_hook=hook).ev(ast.parse(A.expanded(impl.node, factor), mode="eval").body)))
+        except (Unsupported, Raised, TypeError, ValueError) as ex:
+            raise AnalysisError(f"C01.2: unrecognised scaling factor `{ast.unparse(factor) if factor is not None else None}` for the direction list ({ex})") from ex
+        ok = got == [-0.25, -3.0]
+        rep.ob("C01.2", "scale:-lr", ok, impl.loc(scale[0]), f"direction is scaled in place by `{ast.unparse(factor)}` = {got} at lr = [0.25, 3.0]; documented: -lr", sample=True)
     # complementary guards of coupled / decoupled weight decay, and state-creation guards
     rep.attempt("_guard_tables", _guard_tables, ctx, rep)
     rep.floor("C01.2", "_per_group_step_impl roles", len(role_calls) + len(merged), 8)
